@@ -21,6 +21,15 @@ CHECKS = {
  "C05": ("pbt", "seeded proptest: strict independent response parser (M-HTTP) over the request-mutation campaign + differential short-write/unlimited transport",
          "Exploration: 24k (quick) / 2M (thorough) responses from valid and hostile requests on both entry points checked against M-HTTP's well-formedness and self-consistency rules, and 24k / 1M (request, write script) pairs - every chunk size 1..64, a boundary at every byte of the head (also enumerated exhaustively for three requests), random chunk sequences, Ok(0), write error at byte k, flush error - compared with the unlimited-transport response.",
          "Mock transport implements std::io::Write faithfully (short counts are legal); responses compared modulo the timestamp header value.", "DESIGN.md §4 C05"),
+ "C06": ("pbt+net+shuttle", "stateful (history) property testing: generated connection histories against the real binary with fault injection at the socket level and an owned acceptor schedule (SIGSTOP/SIGCONT), invariant checked after every history; pool half under shuttle with panicking jobs",
+         "Exploration: 480 (quick) / 12,000 (thorough) generated histories of up to 160 / 300 operations (valid and fault-provoking requests, G-REQ mutants, close / RST before and after sending, half-sent requests, stalls, idle connections, dead connections queued in the backlog of a stopped server) on servers with 1, 2, 4, 8 workers; after each history the process, the worker-thread set in /proc, a valid probe and an N-connection capacity probe are checked. 8k / 400k mock-transport fault cases in-process. 800 / 20,000 pool configurations with panicking jobs x 300 / 2000 shuttle schedules. Histories shrink to a minimal operation list.",
+         "Logical signals only (exit status, thread names, closed-without-bytes); a probe that merely times out while everything looks healthy is inconclusive. Kernel timing of RST vs accept is forced by queueing the RST while the server is stopped.", "DESIGN.md §4 C06"),
+ "C07": ("shuttle", "randomized schedule exploration (shuttle random + PCT depth 1-4, seeded) of the unmodified pool source with generated pool sizes and task lists; native perturbation at the rws_verif event points",
+         "Exploration: 1,600 (quick) / 40,000 (thorough) generated (N, task list, submit pattern, scheduler) configurations x 300 / 2000 schedules each (480k schedules per quick run); per execution every task counter must be exactly 1 and every rendezvous of width N (or N-1 beside a long task) must complete - shuttle's deadlock report is a logical verdict. Plus 240 / 8,000 native runs on std primitives with seeded perturbation and trace checks. Schedules are sampled, not enumerated; a failing schedule is replayed from shuttle's schedule string.",
+         "shuttle's primitives model std's; the shuttle-only hook breaks the worker loop when the channel closes so that executions terminate; native liveness is not asserted (time limit = inconclusive).", "DESIGN.md §4 C07"),
+ "C08": ("pbt+net", "differential property testing: generated request multisets served concurrently (in-process threads behind a barrier; real binary with backlog / barrier / staggered arrival) vs serially",
+         "Exploration: 2,400 (quick) / 60,000 (thorough) multisets of 2-64 requests through K concurrent threads calling Server::process in one process, and 320 / 12,000 multisets against the real binary with 1-16 workers in three arrival shapes; every concurrent response must equal the serial response byte for byte modulo the timestamp value and the line order of form echoes.",
+         "Real-thread schedules are sampled: a race needing a window of a few instructions may survive; the request path shares no mutable state except the environment.", "DESIGN.md §4 C08"),
  "C09": ("pbt", "seeded proptest over generated trees; differential GET vs HEAD vs OPTIONS per servable path with a CORS reference model for the default configuration",
          "Exploration: 48 (quick) / 2,000 (thorough) generated trees, every servable path x 4 header variants x 2 entry points as GET/HEAD/OPTIONS triples (about 24k requests per quick run); HEAD must equal GET in status and header multiset with an empty body, OPTIONS must be a bodiless 2xx with the predicted preflight grants.",
          "GET's own correctness is C02's; CORS grants are judged for the default allow-all configuration (C11 varies it).", "DESIGN.md §4 C09"),
@@ -30,6 +39,12 @@ CHECKS = {
  "C11": ("pbt", "seeded proptest over (configuration, Origin, method) with a CORS policy reference model (M-CORS), three routes incl. the full server",
          "Exploration: 40k (quick) / 2M (thorough) (configuration, Origin, method) triples; the Origin generator derives prefixes, suffixes, substrings, case variants, joined lists and the empty string from the configured origins so that near misses are the common case; judged through Cors::get_headers / Header::get_header_list (environment), Cors::_process (struct) and a Server::process round trip.",
          "Configured lists without blanks; an unset switch means the default (on).", "DESIGN.md §4 C11"),
+ "C12": ("net", "exhaustive enumeration of the 11x8 setting/source table + seeded proptest over cross-setting combinations and config-file renderings, against the real binary, with a precedence reference model (M-CONF)",
+         "Exhaustive for the 88 (setting, source subset) combinations (flagged exhaustive in evidence); exploration for 1,200 (quick) / 40,000 (thorough) sampled combinations in which every setting draws its own sources, flag spelling and file rendering. All 11 effective values are read back from the running server on every run (listen address, thread count, CORS probe responses, echoed buffer size), which also decides independence.",
+         "CORS sub-settings are unobservable while the effective allow-all switch is on; renderings stay inside the documented TOML subset (tabs included).", "DESIGN.md §4 C12"),
+ "C13": ("pbt+net", "stateful property testing: generated request sequences (network and in-process) with a before/after filesystem manifest invariant; strace audit in the thorough tier",
+         "Exploration: 640 (quick) / 8,000 (thorough) sequences of up to 200 operations (state-changing methods on every existing path, new names, traversal targets, uploads naming tree files, G-REQ mutants) over generated trees; the manifest (type, size, SHA-256, link target, mode, mtime) of the whole scratch base - served tree, ancestors, siblings, linked area - must be unchanged. Thorough adds 400 sequences under strace -f -e trace=%file with no successful mutating call under the scratch base.",
+         "atime excluded; the harness keeps the server's stdout outside the scratch base.", "DESIGN.md §4 C13"),
  "C14": ("pbt", "seeded proptest round-trip (parse . generate = id) + accept/reject reference model of the request line",
          "Exploration: 50k (quick) / 2M (thorough) generated well-formed requests are serialised by the library and parsed back, compared field by field; 40k / 2M raw messages (request-line near misses, arbitrary UTF-8 heads, junk Content-Length) are judged by the harness's accept/reject model. Failures shrink to a minimal request. Sampling, not proof: absence of a counterexample in the grammar explored.",
          "Trusts Request::generate as the serialiser under test and the harness's request-line model; classes the statement leaves open (lower case, extra spaces, empty target pinned by the unit tests, later non-UTF-8 header lines) assert totality only.", "DESIGN.md §4 C14"),
@@ -70,8 +85,12 @@ m = {
    "add_only": True,
  },
  "engines": [
-   {"name": "pbt", "path": "harness/", "serves_properties": sorted(k for k, v in CHECKS.items() if v[0] == "pbt"),
+   {"name": "pbt", "path": "harness/", "serves_properties": sorted(k for k, v in CHECKS.items() if "pbt" in v[0] or "net" in v[0]),
     "kind_free_text": "proptest 1.11 TestRunner (fixed seed from VERIF_SEED, shrinking, no persistence) driving the real rws code compiled in by path; supervised worker processes; explicit oracles (reference models, round-trips, differentials, invariants)"},
+   {"name": "net", "path": "harness/src/fw/net.rs", "serves_properties": sorted(k for k, v in CHECKS.items() if "net" in v[0]),
+    "kind_free_text": "the real rws binary (release, --cfg rws_verif, overflow checks and debug assertions on) started per case in a generated docroot; loopback client with fault injection (RST, half-sent, stalls), SIGSTOP/SIGCONT to own the acceptor's schedule, /proc thread names and exit status as logical signals"},
+   {"name": "shuttle", "path": "sched/", "serves_properties": ["C06", "C07"],
+    "kind_free_text": "shuttle 0.9 random and PCT schedulers (seeded) over src/thread_pool/mod.rs compiled with --cfg rws_verif_shuttle; speaks the harness's worker protocol; failing schedules replay from shuttle's schedule string"},
  ],
  "checks": [],
  "not_applicable": [],
